@@ -148,6 +148,26 @@ Theorem C16_output_parses_query : forall s buflen,
 Proof. exact uri_split_query_parses. Qed.
 Print Assumptions C16_output_parses_query.
 
+(* the representability bound, explicitly: uri_OPT_MAX = 65804 = 269 + 65535.  A well-formed
+   segment / item that decodes to more than 65804 bytes is refused by write_option
+   (make_decoded_option returns -1, nothing is written, whatever the buffer size); one of at
+   most 65804 bytes is written as exactly opt_enc 0 v when header + value fit.  65805 is the
+   first length whose 16-bit extended field would wrap (to that of 269). *)
+Theorem C16_option_length_bound : forall seg rest v st,
+  uri_pct_decode seg = Some v ->
+  (65804 < len v -> uri_write_opt uri_K (seg ++ rest) (len seg) st = UOk st) /\
+  (len v <= 65804 -> len (opt_enc 0 v) <= uw_rem st ->
+   uri_write_opt uri_K (seg ++ rest) (len seg) st =
+   UOk {| uw_ropts := opt_enc 0 v :: uw_ropts st; uw_rem := uw_rem st - len (opt_enc 0 v) |}).
+Proof. exact uri_write_opt_length_bound. Qed.
+Print Assumptions C16_option_length_bound.
+
+Theorem C16_option_length_bound_value :
+  (uri_OPT_MAX = 269 + 65535 /\ uri_OPT_MAX = 65804) /\
+  (opt_hdr 0 65805 = opt_hdr 0 269 /\ opt_hdr 0 65804 = [14; 255; 255]).
+Proof. exact (conj uri_OPT_MAX_is uri_opt_hdr_wraps_above_max). Qed.
+Print Assumptions C16_option_length_bound_value.
+
 (* ------------------------------------------------------------------ query -> options *)
 Theorem C16_query_options : forall s buflen opts,
   uri_spec_query s = Some opts -> uri_query_need s <= buflen ->
@@ -277,6 +297,18 @@ Theorem C16_uri_to_options_reject : forall caps s dst create chain,
   (forall u, ~ uri_grammar caps false s u) -> uri_to_options caps s dst create chain = UOk None.
 Proof. exact uri_to_options_reject. Qed.
 Print Assumptions C16_uri_to_options_reject.
+
+(* coap_host_is_unix_domain (called by coap_uri_into_optlist on the length-delimited host) reads
+   only the host->length bytes of the host, for every host; with the guard "length >= 2" the
+   host "%2" would be read one byte past its end *)
+Theorem C16_host_is_unix_no_overread : forall h,
+  uri_host_is_unix_chk uri_UNIX_K h = UOk (uri_host_is_unix h).
+Proof. exact uri_host_is_unix_chk_ok. Qed.
+Print Assumptions C16_host_is_unix_no_overread.
+
+Theorem C16_host_is_unix_k2_overreads : uri_host_is_unix_chk 2 [37; 50] = UOob.
+Proof. exact uri_host_is_unix_k2_overreads. Qed.
+Print Assumptions C16_host_is_unix_k2_overreads.
 
 (* the port coap_split_uri fills in when the URI has none is the one that needs no Uri-Port *)
 Theorem C16_default_port_no_option : forall name dport ponly sch,
